@@ -3,6 +3,8 @@ from pyvc.runner import Prop, Bounded, script_replay
 from pyvc import effects
 import contracts.omen_level as ol
 import contracts.scorer as sc
+import contracts.omen_loader as oml
+import contracts.guesser_loader as gld
 
 A = 'lib_trainer/detection_rules/alpha_detection.py'
 MW = 'lib_trainer/detection_rules/multiword_detector.py'
@@ -21,7 +23,9 @@ def score_frame(repo):
 
 PROP = Prop(
     'C13', 'A non-zero score is a promise the guesser keeps',
-    functions=[ol.SC + '.parse', (sc.PS + '.parse', sc.install)],
+    functions=[ol.SC + '.parse', (sc.PS + '.parse', sc.install),
+               # the tables the score is computed from are the ruleset's files: every value with the probability of its line; OMEN levels
+               (oml.SGIO + ':_load_from_file', gld.install_reader), (oml.SC + '._load_omen', None)],
     lemmas=lambda: ol.oks_mono.lemmas(),
     effects=effects.combine(score_frame, effects.state_frame_for('C13', ['lib_scorer/pcfg_password_scorer.py', 'lib_scorer/omen_scorer.py', 'lib_scorer/grammar_io.py', 'lib_trainer/detection_rules/multiword_detector.py'])),
     level='other',
